@@ -32,6 +32,8 @@ type Case struct {
 	Ops      [][]any  `json:"ops"`
 	Obs      [][]any  `json:"obs"`
 	Pg       []uint32 `json:"pg"` // pages (host Grow(0)) before each op
+	Committed []uint64 `json:"committed,omitempty"` // custom allocator: bytes it was last asked for, after each op
+	Fresh    []int    `json:"fresh,omitempty"`     // after each successful grow: first byte of the new region as the host reads it (-1: no growth)
 	Err      string   `json:"err,omitempty"`
 }
 
@@ -50,20 +52,48 @@ func memMod(min uint32, max *uint32) []byte {
 	return m.Bytes()
 }
 
-type sliceMem struct{ buf []byte }
+// sliceMem reserves the maximum as spare CAPACITY of a Go slice and commits on Reallocate: the page right after the
+// committed size is kept poisoned (0xcc) and newly committed bytes are zeroed by Reallocate, so a grow that re-slices
+// the buffer without telling the allocator exposes poisoned pages and leaves `committed` behind the memory's size.
+type sliceMem struct {
+	buf       []byte
+	committed uint64
+}
+
+const poisonSpan = 65536
+
+func (s *sliceMem) poison() {
+	full := s.buf[:cap(s.buf)]
+	end := s.committed + poisonSpan
+	if end > uint64(len(full)) {
+		end = uint64(len(full))
+	}
+	for i := s.committed; i < end; i++ {
+		full[i] = 0xcc
+	}
+}
 
 func (s *sliceMem) Reallocate(size uint64) []byte {
 	if size > uint64(cap(s.buf)) {
 		return nil
 	}
+	full := s.buf[:cap(s.buf)]
+	if size > s.committed { // newly committed bytes are zero (only the poisoned span can be non-zero)
+		end := s.committed + poisonSpan
+		if end > size {
+			end = size
+		}
+		for i := s.committed; i < end; i++ {
+			full[i] = 0
+		}
+	}
+	s.committed = size
 	s.buf = s.buf[:size]
+	s.poison()
 	return s.buf
 }
 func (s *sliceMem) Free() {}
 
-var allocator = experimental.MemoryAllocatorFunc(func(cap, max uint64) experimental.LinearMemory {
-	return &sliceMem{buf: make([]byte, 0, max)}
-})
 
 func ok(v uint64) []any { return []any{"ok", v} }
 
@@ -94,8 +124,13 @@ func runCase(ctx context.Context, cf Cfg, engine string, ops [][]any) Case {
 		mx = &cf.Max
 	}
 	ictx := ctx
+	var am *sliceMem
 	if cf.Alloc {
-		ictx = experimental.WithMemoryAllocator(ctx, allocator)
+		ictx = experimental.WithMemoryAllocator(ctx, experimental.MemoryAllocatorFunc(func(cap, max uint64) experimental.LinearMemory {
+			am = &sliceMem{buf: make([]byte, 0, max)}
+			am.poison()
+			return am
+		}))
 	}
 	var mod api.Module
 	var err error
@@ -240,6 +275,18 @@ func runCase(ctx context.Context, cf Cfg, engine string, ops [][]any) Case {
 			})
 		}
 		cs.Obs = append(cs.Obs, o)
+		fresh := -1
+		if pg2, _ := mem.Grow(0); pg2 > pg {
+			if b, k := mem.ReadByte(pg * 65536); k {
+				fresh = int(b)
+			} else {
+				fresh = -2
+			}
+		}
+		cs.Fresh = append(cs.Fresh, fresh)
+		if am != nil {
+			cs.Committed = append(cs.Committed, am.committed)
+		}
 	}
 	return cs
 }
